@@ -74,7 +74,7 @@ type Run struct {
 type VariantResult struct {
 	Name   string `json:"name"`
 	Rule   string `json:"first_report,omitempty"`
-	Status string `json:"status"` // detected | missed | not-applicable | does-not-type-check
+	Status string `json:"status"` // detected | missed | silent-as-expected | false-alarm | not-applicable | does-not-type-check
 }
 
 func NewRun(prop, tier string) *Run {
